@@ -127,7 +127,7 @@ def renderEvent (outs : List Out) (r : Option Outcome) : String :=
 
 def Op.pending : Op → List Nat
   | .const _ _ => []
-  | .leaf i ph => if ph = .running then [i] else []
+  | .leaf i ph _ => if ph = .running then [i] else []
   | .un _ c _ _ => c.pending
   | .bin _ a b _ => a.pending ++ b.pending
 
